@@ -7,6 +7,7 @@ package PKG
 // natively (replay), the value is read from the assignment file named by VERIF_REPLAY_FILE.
 
 import (
+	"reflect"
 	"encoding/hex"
 	"fmt"
 	"runtime"
@@ -144,6 +145,71 @@ func ndConcrete(x int) int { return x }
 // buf's backing store. Natively false: the harness overwrites the buffer instead and
 // compares what it can observe.
 func ndReaches(root interface{}, buf []byte) bool { return false }
+
+// ndShares: some mutable memory is reachable from both a and b. Symbolic: the engine
+// intersects the two reachable object sets. Native: an independent walk over both object
+// graphs by reflection (pointers, slices, maps, interfaces, unexported fields included)
+// collecting the addresses of everything pointed to; a common address is shared state.
+func ndShares(a, b interface{}) bool {
+	sa, sb := map[uintptr]bool{}, map[uintptr]bool{}
+	verifWalkPtrs(reflect.ValueOf(a), sa, 0)
+	verifWalkPtrs(reflect.ValueOf(b), sb, 0)
+	for p := range sa {
+		if sb[p] {
+			return true
+		}
+	}
+	return false
+}
+
+func verifWalkPtrs(v reflect.Value, seen map[uintptr]bool, depth int) {
+	if !v.IsValid() || depth > 40 {
+		return
+	}
+	switch v.Kind() {
+	case reflect.Pointer:
+		if v.IsNil() || seen[v.Pointer()] {
+			return
+		}
+		if v.Type().Elem().Size() == 0 {
+			return // all zero-size objects share one address
+		}
+		seen[v.Pointer()] = true
+		verifWalkPtrs(v.Elem(), seen, depth+1)
+	case reflect.Interface:
+		if !v.IsNil() {
+			verifWalkPtrs(v.Elem(), seen, depth+1)
+		}
+	case reflect.Slice:
+		if v.IsNil() || v.Cap() == 0 {
+			return
+		}
+		seen[v.Pointer()] = true
+		switch v.Type().Elem().Kind() {
+		case reflect.Pointer, reflect.Interface, reflect.Slice, reflect.Map, reflect.Struct, reflect.Array:
+			for i := 0; i < v.Len(); i++ {
+				verifWalkPtrs(v.Index(i), seen, depth+1)
+			}
+		}
+	case reflect.Map:
+		if v.IsNil() {
+			return
+		}
+		seen[v.Pointer()] = true
+		it := v.MapRange()
+		for it.Next() {
+			verifWalkPtrs(it.Value(), seen, depth+1)
+		}
+	case reflect.Struct:
+		for i := 0; i < v.NumField(); i++ {
+			verifWalkPtrs(v.Field(i), seen, depth+1)
+		}
+	case reflect.Array:
+		for i := 0; i < v.Len(); i++ {
+			verifWalkPtrs(v.Index(i), seen, depth+1)
+		}
+	}
+}
 
 // ndFakeLenInts: a []int of length n. Symbolically n stays symbolic and the elements do not
 // exist (they must not be read: use with ndAtFirstLoop); natively the slice is 0..n-1.
